@@ -115,7 +115,12 @@ func (e *Enc) instr(ins ssa.Instruction) {
 		for _, rv := range x.Results {
 			vs = append(vs, e.val(rv))
 		}
-		e.rets = append(e.rets, retInfo{reach: e.reach[e.cur], vals: vs, st: e.st})
+		okRet := true
+		if n := len(x.Results); n > 0 && isErrorLike(x.Results[n-1].Type()) {
+			c, isC := x.Results[n-1].(*ssa.Const)
+			okRet = isC && c.Value == nil
+		}
+		e.rets = append(e.rets, retInfo{reach: e.reach[e.cur], vals: vs, st: e.st, okRet: okRet})
 	case *ssa.Panic:
 		e.explicitPanic(x)
 	case *ssa.RunDefers:
